@@ -86,6 +86,7 @@ func (g *RWMutexGuard) Lock(ctx context.Context) error {
 // This is a no-op if the lock is already an exclusive lock. This function will
 // trigger OnLockStateChange on the mutex, if set, and if state changes.
 func (g *RWMutexGuard) TryLock() bool {
+	verifPoint("rw.trylock", g, 0, false)
 	g.rw.mu.Lock()
 	prevState := g.rw.state()
 	v := g.tryLock()
@@ -170,6 +171,7 @@ func (g *RWMutexGuard) RLock(ctx context.Context) error {
 // TryRLock attempts to obtain a shared lock on the mutex for the guard. This will upgrade
 // an unlocked guard and downgrade an exclusive guard. Shared guards are a no-op.
 func (g *RWMutexGuard) TryRLock() bool {
+	verifPoint("rw.tryrlock", g, 0, false)
 	g.rw.mu.Lock()
 	prevState := g.rw.state()
 	v := g.tryRLock()
@@ -223,6 +225,7 @@ func (g *RWMutexGuard) CanRLock() bool {
 
 // Unlock unlocks the underlying mutex.
 func (g *RWMutexGuard) Unlock() {
+	verifPoint("rw.unlock", g, 0, false)
 	g.rw.mu.Lock()
 	prevState := g.rw.state()
 	g.unlock()
